@@ -10,7 +10,7 @@ CONFIG = {
     "technique": "Lean 4 totality / in-bounds proofs about a PEG model of the console command grammar (numeric tokens with Rust overflow semantics), the slice/index arithmetic and the decoder reads + differential correspondence of outcome classes (ok/err/panic site/abort) with the real code under catch_unwind (parser in-process, slices on a live debuggee in forked workers)",
     "level_text": "Proved in Lean for all inputs: exactness of the numeric conversions (C08_num_conv_exact: checked multiply-add = mathematical value iff in range, any radix/width/digit string), panic-freedom of the command parser model for every string in the repaired setting (C08_cmd_total_repaired) and, as found, for every line whose numeric tokens are in range (C08_cmd_total_partial, decidable predicate) with the refutation of the full statement on `break remove 4294967296` (C08_cmd_total_counterexample); slice arithmetic total within left<=len, left<=right (C08_slice_total_partial), results are in-bounds contiguous runs (C08_slice_in_bounds), pointer-slice reads stay in the requested range (C08_ptr_slice_total_partial), member extraction inside the fetched bytes for every layout whose members lie inside the struct (C08_decode_in_bounds) with a model-level counterexample for DW_ATE_UTF of size 2. The model is tied to the code on every run by executing the same grammar-derived, mutated and garbage command lines through Command::parse and the same slice/index queries through Debugger::read_variable on a live debuggee and comparing outcome classes.",
     "level_note": "Partial: the unchanged tree panics (9 classes reproduced, see known_findings.txt), so the full statements are proved only for the model's repaired setting. Trusted: Lean kernel + 3 standard axioms; chumsky's combinator semantics read as a PEG (sampled by the correspondence run, exact ok/err agreement); ASCII restriction of Unicode identifier classes; tie is sampling. DAP leg (Props/C08Dap.lean, harness c08dap): argument decoding and string/number handling of all 43 request handlers up to the first call into the debugger, tied per message (outcome class incl. the rejection site); what the debugger answers after that is taken from the wire. Not covered: hashbrown/B-tree walks, decoder reads on the real code (model + theorem only; needs `verif::probe` hooks).",
-    "runs": {"quick": [{"n": 6000, "timeout": 900}, {"cmd": "c08dap", "n": 900, "timeout": 2400}],
+    "runs": {"quick": [{"n": 6000, "timeout": 900}, {"cmd": "c08dap", "n": 700, "timeout": 2400}],
              "thorough": [{"n": 150000, "timeout": 3000}, {"cmd": "c08dap", "n": 9000, "timeout": 12000}]},
     "trivial_answers": ["ok", "-", "bad-op", "", "nopanic", "closed", "ignored"],
     "assumptions": [
@@ -19,6 +19,9 @@ CONFIG = {
         "dev/test profile (overflow checks on): `-(i64::MIN)`, usize `-`, `*`, `+` panic; in a release build these wrap instead (Quirks.overflowChecks)",
         "allocation requests above 2^47 bytes fail (abort), requests up to 64 KiB succeed; nothing in between is generated",
         "the debuggee's stack pointer variable lies in [4096, 2^47)",
+        "DAP leg: messages are JSON objects or scalars (serde also accepts an array as a `DapRequest` sequence: not generated); values behind placeholders (thread id, frame id, variables reference, mapped address) are taken from the wire at run time, the model sees a representative of the same shape",
+        "DAP leg: expressions carrying an out-of-range numeric token are ASCII (the identifier classes of the parser model are ASCII-restricted); `cancel` never names a progress id of the adapter (`bs-progress-N`)",
+        "DAP leg: `attach`, `terminateThreads`, `runInTerminal` are only given process ids / programs that cannot exist on a Linux machine (ids above 4194304, paths under /nonexistent); thread id 0 is sent only inside a worker that is its own process group",
     ],
     "uncovered": ["DAP: what the debugger does after the arguments are decoded (evaluation, stepping, memory access) is not modelled: there the run itself is the search (any panic / death / hang is an oracle failure); array-shaped request envelopes, unparsable JSON text (transport), `attach` to an existing process, `runInTerminal` of an existing program, signals to existing thread ids are never generated", "decoder reads on the real code (scalar_from_bytes / StructureMember::value): theorem + model only, no probe hook yet",
                   "hashbrown / B-tree walks on arbitrary memory (C08_decode_terminates)", "Unicode identifiers / Unicode white space in command lines", "command lines longer than ~300 characters; deep nesting (stack overflow of the recursive-descent parser) is not explored"],
